@@ -216,6 +216,11 @@ func genValue(rng *rand.Rand, t reflect.Type, depth int) (v reflect.Value, ok bo
 	}
 	switch t.Kind() {
 	case reflect.String:
+		if c01Override != nil {
+			s := *c01Override
+			c01Override = nil
+			return reflect.ValueOf(s).Convert(t), true
+		}
 		return reflect.ValueOf(genNasty(rng)).Convert(t), true
 	case reflect.Bool:
 		return reflect.ValueOf(rng.IntN(2) == 0).Convert(t), true
@@ -230,6 +235,11 @@ func genValue(rng *rand.Rand, t reflect.Type, depth int) (v reflect.Value, ok bo
 		return reflect.ValueOf(uint64(pick(rng, 0, 1, 2, 53, 255, 65535))).Convert(t), true
 	case reflect.Slice:
 		if t.Elem().Kind() == reflect.Uint8 {
+			if c01Override != nil {
+				s := *c01Override
+				c01Override = nil
+				return reflect.ValueOf([]byte(s)).Convert(t), true
+			}
 			return reflect.ValueOf([]byte(genNasty(rng))).Convert(t), true
 		}
 		n := rng.IntN(4)
@@ -316,6 +326,23 @@ func c01Find(name string) *c01Entry {
 // generic argument generator cannot guarantee are listed here explicitly.
 var c01Skip = map[string]string{}
 
+// c01Tiny: every text-consuming function is also called with each of the shortest inputs (the
+// empty string, single delimiters, quotes and signs, truncated pairs): index checks written for
+// "the first and the last byte" and scanners that assume at least one more byte meet them here.
+var c01Tiny = func() (t []string) {
+	single := []string{"", "\"", "'", "[", "]", "{", "}", "(", ":", "/", "%", ".", "-", "+", "#", "\\", "\x00", "\xff", " ", "\t", "\n", "\r", "0", "9", "a", "_", "@", "?", "=", ",", "*", "\xc3", "\u00a0"}
+	t = append(t, single...)
+	for _, a := range []string{"\"", "[", ":", "%", ".", "/", "-", "\\", "0", "#", " "} {
+		for _, b := range []string{"\"", "]", ":", "%", ".", "/", "-", "\\", "0", "a", " ", "\x00"} {
+			t = append(t, a+b)
+		}
+	}
+	return append(t, "\"\"\"", "[]:", "::", ":::", "%25", "...", "0.0", "1/", "/1", "\"\\\"", "\\u", "\"\\u", "null", "nul", "0s", "1h0", "-0")
+}()
+
+// c01Override, when set, is what the next generated string / []byte argument is.
+var c01Override *string
+
 func evalC01(c string) (res Result) {
 	f := strings.Split(c, " ")
 	if f[0] == "C01.list" {
@@ -379,6 +406,12 @@ func evalC01(c string) (res Result) {
 	}
 	seed := uint64(atoi(f[2]))
 	rng := rand.New(rand.NewPCG(seed, 0xC01))
+	c01Override = nil
+	if len(f) > 3 {
+		// "t<idx>": the first text argument is the idx-th of the tiny inputs
+		s := c01Tiny[atoi(f[3][1:])%len(c01Tiny)]
+		c01Override = &s
+	}
 	fv := reflect.ValueOf(e.fn)
 	ft := fv.Type()
 	args := make([]reflect.Value, 0, ft.NumIn())
@@ -534,6 +567,9 @@ func genC01(rng *rand.Rand, tier string) (cases []string) {
 		n := per
 		for i := 0; i < n; i++ {
 			cases = append(cases, fmt.Sprintf("C01.call %s %d", e.name, rng.Uint32()))
+		}
+		for i := range c01Tiny {
+			cases = append(cases, fmt.Sprintf("C01.call %s %d t%d", e.name, rng.Uint32(), i))
 		}
 	}
 	return cases
